@@ -612,6 +612,85 @@ def big_dumps(rep, rng, tier):
                 sec['distinct_nontrivial'] += 1
 
 
+# ---------------------------------------------------------------------------------------------------------
+# partly filled tables: the shared thread / process tables may know a thread and not its process' name, a name and no thread
+
+def run_real_tables(case):
+    """`run_real` on a parser CONSTRUCTED with the tables of the case (as a request on a dump with a thread map does)."""
+    codes = {int(k): v for k, v in case['codes'].items()}
+    tp = {int(k): v for k, v in case['tp'].items()}
+    pn = {int(k): v for k, v in case['pn'].items()}
+    parser = TracesParser(codes, tp, pn)
+    events = [from_kd_buf(bytes.fromhex(h)) for h in case['events']]
+    cur = [None, -1]
+
+    def gen():
+        for i, e in enumerate(events):
+            cur[0], cur[1] = e, i
+            yield e
+    try:
+        for t in parser.feed_generator(gen()):
+            try:
+                str(t)
+            except Exception as ex:  # noqa: BLE001
+                return codes.get(t.ktraces[0].eventid, '?'), core.err_name(ex), 'str() of the trace delivered at event %d' % cur[1]
+    except Exception as ex:  # noqa: BLE001
+        return codes.get(cur[0].eventid, '?'), core.err_name(ex), 'feed_generator at event %d' % cur[1]
+    return None
+
+
+def table_configs(recs):
+    """Tables in which the identities the records MENTION — their thread ids and every argument word — are partly known: a
+    thread of a process without a name, a named process without threads, a thread whose pid is its own number, everything
+    known.  (A new-thread record whose name string was lost, a thread map entry without command, a terminate-pid record of an
+    unnamed pid leave exactly such tables behind.)"""
+    words = []
+    for r in recs:
+        words.append(int.from_bytes(r[40:48], 'little'))
+        words += [int.from_bytes(r[8 + 8 * i:16 + 8 * i], 'little') for i in range(4)]
+    words = list(dict.fromkeys(words))[:40]
+    pid = {w: 9000 + i for i, w in enumerate(words)}
+    return [('threads-of-unnamed-processes', pid, {}),
+            ('names-without-threads', {}, {w: 'proc%d' % i for i, w in enumerate(words)}),
+            ('pid-is-tid', {w: w for w in words}, {}),
+            ('every-other-process-named', pid, {9000 + i: 'p%d' % i for i in range(0, len(words), 2)}),
+            ('all-known', pid, {9000 + i: 'p%d' % i for i in range(len(words))})]
+
+
+def partial_tables(rep, rng, tier):
+    names = D.all_handler_names()
+    if tier == 'quick' and not mined_changed():
+        hand = set(D.stats()['unsupported'])
+        names = sorted(set(rng.sample(names, 90)) | hand | {n for n in names if not (n.startswith('BSC_') or n.startswith('MSC_'))})
+    cases = []
+    for name in names:
+        recs = base_scenario(name)
+        if recs is None:
+            continue
+        for label, tp, pn in table_configs(recs):
+            c = P.make_case_from(recs)
+            c.update(label='%s/%s' % (name, label), tp={str(k): v for k, v in tp.items()}, pn={str(k): v for k, v in pn.items()})
+            cases.append(c)
+
+    def oracle(c):
+        r = run_real_tables(c)
+        if r is None:
+            return None
+        return ('abort:%s:%s' % (r[0], r[1].split(':')[0]),
+                '%s: handler of %s raised %s (%s) on a parser whose tables are partly filled' % (c['label'], r[0], r[1], r[2]), c)
+    core.run_code_section(rep, 'partial-tables', cases, oracle, kind_fn=lambda c: c['label'].split('/', 1)[1],
+                          rule='the complete scenario of every registered handler (quick tier on an unchanged source: every '
+                               'non-syscall handler and 90 syscall decoders) on a parser constructed with tables in which the '
+                               'thread ids and argument words the records mention are partly known (5 configurations: threads of '
+                               'unnamed processes, names without threads, pid = tid, every other process named, all known); '
+                               'oracle on the code alone: no exception escapes feed_generator or str(t)')
+
+
+def mined_changed():
+    from .. import mined
+    return bool(mined.changed_files())
+
+
 def correspondence(rep, rng, tier):
     P.section_pipeline(rep, rng, tier, oracle_fn=make_oracle(need_ascii=True))
     shrink(rep, 'pipeline', make_oracle(need_ascii=True))
@@ -621,6 +700,7 @@ def correspondence(rep, rng, tier):
     section_findings(rep)
     long_windows(rep, rng, tier)
     big_dumps(rep, rng, tier)
+    partial_tables(rep, rng, tier)
     shrink(rep, 'foreign-record', make_oracle())
     st = D.stats()
     rep.notes.append('translator: %d of %d registered handlers compiled to IR; hand-modelled: %s'
@@ -650,6 +730,13 @@ def replay(path):
             err = core.err_name(e)
         print('well-formed v2 dump of %d records: %d lines, exception %s' % (n, lines, err))
         if err != '-' or lines != n:
+            print(f'VIOLATION property=C07 replay={path}')
+            return 1
+        return 0
+    if rp.get('section') == 'partial-tables':
+        res = run_real_tables(rp['case'])
+        print(rp['case'].get('label'), '->', res)
+        if res:
             print(f'VIOLATION property=C07 replay={path}')
             return 1
         return 0
